@@ -235,7 +235,9 @@ func (E *explorer) runOneS(prefix []int32, useCache bool, sleepInit []transID) *
 	} else if e.earlyStop {
 		E.res.CutEarly++
 	} else if h.Check != nil && !E.opt.Race {
+		e.checking = true
 		h.Check(x)
+		e.checking = false
 	}
 	// collect panics of code threads as observations; the harness decides in Check what they mean
 	e.aborting = true
@@ -551,7 +553,7 @@ func (E *explorer) dfsSleep(prefix []int32, sleepInit []transID) {
 						return
 					}
 				}
-			} else {
+			} else if !pi.forced {
 				explored := []transID{pi.opts[p.chosen]}
 				for alt := int32(0); alt < p.n; alt++ {
 					if alt == p.chosen || pi.asleep[alt] {
@@ -603,7 +605,10 @@ func Explore(h *Harness, opt Options) *Result {
 	}
 	run := E.dfs
 	if opt.POR {
-		run = func(p []int32) { E.dfsSleep(p, nil) }
+		run = func(p []int32) { E.dpor(p) }
+		if os.Getenv("VERIF_SLEEPONLY") != "" {
+			run = func(p []int32) { E.dfsSleep(p, nil) }
+		}
 	}
 	if opt.NShards == 1 {
 		run(nil)
